@@ -62,6 +62,18 @@ add("C14", "vp_buf",
     "Trusted: the queue model, the probe source.",
     "DESIGN.md §4 C14")
 
+add("C04", "vp_sig",
+    "proptest over typed adaptor trees (program generation) against a compositional pointwise model with instrumented sources",
+    "Random adaptor trees to depth 4 (thorough 7) over 8 frame types, built from the real dasp adaptors on type-erased children (map, scale/offset and their per-channel variants, clip_amp, inspect, delay, by_ref via a throw-away adaptor on a borrow, zip_map, add_amp, mul_amp), plus a catalogue of every single adaptor and every pair; frame k must equal the composition of the frame operations on frame k of the sources, clip_amp an independent clamp, delay(k) k equilibrium frames; after every output frame every probe's pull counter must have advanced by exactly one (zero under a delay still emitting silence) and every inspect closure must have been called exactly once per frame that reached it.",
+    "Trusted: the Frame operations (C03's subject) used by the model, the probe sources. Operands are small by construction so results stay in range.",
+    "DESIGN.md §4 C04")
+
+add("C05", "vp_sig",
+    "bounded-exhaustive catalogue + proptest trees against a stream-length model",
+    "Every single adaptor and every pair x source lengths 0..=12 (thorough 16) x 1..4 channels x iterator-backed and interleaved-sample sources with every incomplete-tail length x delays 0..=3 x every consumption mode (is_exhausted before/after each next with pulls past the end, until_exhausted, take(n), interleaved iterator, next_sample, lift), two-source adaptors with every (L1, L2) <= 6, plus random trees: exhaustion exactly at min source length (+ leading delays), equilibrium afterwards, iterators yield exactly the model length and then None on five further calls, interleaved output yields frames x channels samples in channel order.",
+    "Trusted: the stream-length model (pointwise keeps, two-source min, delay adds).",
+    "DESIGN.md §4 C05")
+
 PENDING_REASON = "check not yet built in this round (design in DESIGN.md §4); nothing is claimed for it until its check is registered"
 
 def main():
